@@ -355,6 +355,13 @@ def payload_laws(ctx, key, label, ser, block, payload, origin, own):
             continue
         p1 = bytes(p1)
         ctx.count("byte_payload_checks")
+        try:
+            if gen_spec.canon(d) != canon_d:
+                ctx.violation(f"encode-mutates-value:{name}", "encoding a decoded value changed that value in place",
+                              dict(wit, before=repr(canon_d)[:300], after=repr(gen_spec.canon(d))[:300]))
+                continue
+        except Exception:
+            pass
         if own:
             if p1 != payload:
                 ctx.violation(f"own-payload-changed:{name}" + (":pod" if pod else ""),
@@ -528,6 +535,11 @@ def _scribble(v, depth=0):
     from hippolyzer.lib.base.datatypes import TaggedUnion
     if depth > 4:
         return False
+    if hasattr(type(v), "__wrapped__") or type(v).__name__ == "Proxy":
+        try:
+            v = v.__wrapped__                    # lazy proxies: edit the object behind them
+        except Exception:
+            return False
     if isinstance(v, TaggedUnion):
         return _scribble(v.value, depth + 1)
     if isinstance(v, dict):
